@@ -67,6 +67,9 @@
 //	<the four above>:older-star   same, and an OLDER entry of the name carries Before("*") / After("*") where the
 //	                              newest entry does not (gorm's pre-sort of the registry then puts the older entry
 //	                              behind the newest one); no +star, /single-request, /single-step suffix
+//	<..>:older-star:rewritten     same, the newest entry carries that "*" request too, but another Register/Replace
+//	                              call names the callback (precondition of the sorter's known rewriting of stored
+//	                              requests, which then takes the "*" request off the newest entry)
 //	side:before / side:after      a Before/After(name) constraint is broken although an
 //	                              order satisfying all requested constraints exists
 //	side:star                     same for Before/After("*") (weak reading, see Assumptions), the callback
@@ -1587,6 +1590,12 @@ func check(p *pipeline, m map[int]*nameState, trace []ev, modeA, touched, failed
 			sfx := ""
 			if ns.olderStar() {
 				sfx = ":older-star" // (an older entry carries a "*" request that the newest does not: the pre-sort reorders them)
+			} else if (ns.olderStarB || ns.olderStarA) && ns.namedBy {
+				// the newest entry carries the same "*" request, but another call names the callback: the
+				// sorter's known rewriting of stored requests (cs[idx].before/after = c.name lands on the
+				// newest entry of the name) takes the "*" request off the newest entry, the next compile
+				// then pre-sorts the older entry behind it
+				sfx = ":older-star:rewritten"
 			}
 			switch {
 			case newest == 0 && n == 0:
@@ -2109,7 +2118,7 @@ func run(c *core.Ctx) {
 			// contradicts the other): a sequence with a single Before/After request is a class of its own
 			// (:older-star names its structural precondition itself: one "*" request on an older entry)
 			switch {
-			case strings.HasSuffix(cl0, ":older-star"):
+			case strings.Contains(cl0, ":older-star"):
 			case constrained <= 1:
 				cl += "/single-request"
 			case cSteps == 1:
@@ -2412,7 +2421,7 @@ var Engine = &core.Engine{
 		"Calls: Register, Before(t).Register, After(t).Register, Before(t).After(t').Register (both chain orders), Replace, Remove; registered names: canonical fresh names, names removed earlier, and user names that exist at that moment (second entry under one name; in the enumeration such a call carries at most one request); targets t: every built-in of the pipeline, every user name introduced so far, the next name to be introduced (forward reference / unknown), '*'; Replace/Remove names: built-ins, user names, an unknown name. " +
 		"Enumerated completely: all sequences of length 0..2 on every pipeline (quick and thorough); thorough adds all sequences of length 3 with the built-in alphabet reduced to {first, main, last} built-in on Create/Update/Delete (full on Query/Row/Raw). Also enumerated on every pipeline: the 150 'move' sequences of length 4 (register u1 and u2 with plain/Before/After constraints, remove one, register it again with other constraints) and the 2 376 'second entry' sequences of length 3..6 (a name x that exists - a user callback registered plain / Before / After a built-in / Before or After '*', or the main built-in - gets a second entry through Register or through Before/After(..).Replace, with a neighbour registered plain / Before(x) / After(x); or through Before(built-in).After(neighbour).Register / Before(neighbour).Replace - so that the request of the second entry is in some sequences already met by the position x has and in others not: the call then has to return an error or x has to move; then nothing | Remove(x) | Remove, Register again (plain / After(neighbour)) | Replace(x) | Replace, Remove | Before(neighbour).Remove(x) | third Register, Remove | a third entry After(neighbour) | a third entry Before(built-in) | a new callback registered After(x)). Also enumerated on every pipeline (n built-ins: 16*n*(n+1) sequences, 2 976 in all): a BUILT-IN x is given a second entry that carries a request, over the full built-in alphabet: Register(u1), then Before(t).Replace(x) | After(t).Replace(x) | Before(t).Register(x) | After(t).Register(x) for every built-in x and every t among the other built-ins, u1 and '*', then nothing | Remove(x) | Replace(x) | After(x).Register(u2). Then random sequences of length 3..8 over 5 user names (forward and removed names as targets, unknown name, '*', remove-and-register-again moves, second entries under existing user and built-in names by Register or by a Replace carrying a request, Remove calls carrying a request): 5 000 quick / 300 000 thorough. " +
 		"Entry into the pipeline: after the healthy execution (Create with belongs-to and has-many / Preload+Find / Model.Updates / Select.Delete / Row or Rows / Exec) EVERY case executes the pipeline again on the same handle, once per entry, and each execution is held to the same model: (repeat) the same operation a second time; (failed-statement: the statement carries an error before the first callback runs) tx.AddError on a session handle, a Scope that adds an error, a *int as model/destination (Statement.Parse fails; not for Exec), a nil *Main (ErrInvalidValue), a transaction handle from a Begin that the driver failed [B]; (driver-fault) [B] a healthy statement with the driver failing the (1 + case mod 3)-th call it receives (begin / statement / commit, also those of nested association writes); (session) [B] a DryRun session, a handle from db.Begin() rolled back afterwards. [B] = only with the wrapped built-ins; the others also on the pristine registry, where a failed statement shows the stubs only. A problem that the healthy execution already has is not reported again; a new one gets the signature <class>@<entry group>. Then, in mode B, 1..3 late registration calls are made on the executed registry - a new name u9 is registered (by case mod 4: plain | Before(main built-in) | After(lowest live user callback) | Before(lowest live user callback)); the lowest live user callback is (by case/4 mod 3) Replace'd | registered again (a second entry made late) | registered again After(\"u9\") (a request its position normally contradicts: error return or move); the highest other live user callback is removed - and the pipeline is executed once more, checked against the model of the sequence including those calls (plain signatures, suffixes computed over the whole sequence). " +
-		"A name with several entries is held to: the handler handed over by the LAST call under the name (Register again, Replace carrying a request, or a later plain Replace) fires exactly once - in both observation modes, for user and built-in names (signatures stale-handler:registered-again, stale-handler:replace-request, stale-handler:multi-entry, not-once:missing:multi-entry; suffix :older-star when an older entry of the name carries a '*' request that the newest does not) -, no handler twice, none after Remove, a handler replaced by a Replace (plain or carrying a request) does not fire next to the new one (replaced-ran:multi-entry), AND the named Before/After request of the call that made its newest entry holds (signatures side:before|after:multi-entry, :replace-request; :rewritten when another call names the callback or an earlier call under its name carried a named request); requests of other callbacks that name such a name are checked too (:multi-target). " +
+		"A name with several entries is held to: the handler handed over by the LAST call under the name (Register again, Replace carrying a request, or a later plain Replace) fires exactly once - in both observation modes, for user and built-in names (signatures stale-handler:registered-again, stale-handler:replace-request, stale-handler:multi-entry, not-once:missing:multi-entry; suffix :older-star when an older entry of the name carries a '*' request that the newest does not, :older-star:rewritten when the newest carries it too but another call names the callback) -, no handler twice, none after Remove, a handler replaced by a Replace (plain or carrying a request) does not fire next to the new one (replaced-ran:multi-entry), AND the named Before/After request of the call that made its newest entry holds (signatures side:before|after:multi-entry, :replace-request; :rewritten when another call names the callback or an earlier call under its name carried a named request); requests of other callbacks that name such a name are checked too (:multi-target). " +
 		"Ordering violations are classified by whether an order satisfying everything requested exists (side:*) or not (contradiction-accepted:*: the statement then demands an error return). distinct = (pipeline, literal sequence); non-trivial = no call returned an error, the pipeline ran, and at least one Before/After constraint with a running target, one removal, one replacement or one name with several entries was checked against the firing order",
 	Assumptions: []string{
 		"a second entry under a name that exists at that moment (Register of an existing user or built-in name; Replace carrying Before/After, which gorm stores as an entry of its own) IS generated. The statement does not say where such a name then runs, nor whether the OLDER handler of a name that was merely registered again still runs as a callback of its own; it does say that every registered, non-removed callback runs exactly once and that Replace puts the new function in the place of the replaced callback. Demanded therefore: the handler handed over by the last call under the name (that call returned nil and nothing removed or replaced the handler since) fires exactly once - under either reading of a repeated Register it is a registered callback -, a handler that a later Replace (plain, or carrying Before/After) replaced does not fire, no handler fires twice, after Remove(name) none of them fires (and a later Register of the name starts afresh), that the NAMED Before/After request carried by the call that made the newest entry holds for the handler that fires (that call returned nil; whether the name is one callback defined anew or several callbacks, this request stands), and that a callback naming such a name fires on the requested side of it. Not checked: the requests of the older entries of the name (a later registration may be read as superseding them), a '*' request of a second entry, the Replace position of such a name and the built-in order relative to it",
